@@ -6,7 +6,7 @@
    - on the specification: position = last assignment (wrapped), agents = added and not removed,
      radius / k-nearest answers exact, rejected assignments change nothing. *)
 From Coq Require Import ZArith List Bool Lia Permutation.
-From Mesa Require Import Common.ListX Model.ContGeom Model.ContLegacy Model.ContExp Proofs.ContGeomProofs.
+From Mesa Require Import Common.ListX Generated.Tables Model.ContGeom Model.ContLegacy Model.ContExp Proofs.ContGeomProofs.
 Import ListNotations.
 Open Scope Z_scope.
 
@@ -717,4 +717,12 @@ Proof.
   apply mem_In in Hin. rewrite Hin in Hsim. cbn [negb orb] in Hsim.
   unfold norm_pos in Hsim. rewrite Ht in Hsim.
   destruct (in_closed (ec_bounds c) p); inversion Hsim as [[H0 H1]]; symmetry; exact H1.
+Qed.
+
+(* the growth rule against the constants extracted from the source (Generated.Tables) *)
+Lemma growth_spec n :
+  growth n = Nat.max ((2 * n + 5) / 10) (Z.to_nat (snd (fst gen_cont_exp_growth))) /\ (1 <= growth n)%nat.
+Proof.
+  assert (Z.to_nat (snd (fst gen_cont_exp_growth)) = 1%nat) as -> by (vm_compute; reflexivity).
+  unfold growth. split; [reflexivity|]. apply Nat.le_max_r.
 Qed.
